@@ -780,6 +780,8 @@ var c12ReachSets = []struct {
 	{map[string]string{"base": "[{% block c %}{% endblock %}]", "lib": "{% macro k(a) %}K{{ a }}{% endmacro %}", "main": "{% extends 'base' %}{% import 'lib' as l %}{% block c %}{{ l.k(1) }}{% endblock %}"}, "[K1]"},
 	{map[string]string{"base": "[{% block c %}{% endblock %}]", "lib": "{% macro k(a) %}K{{ a }}{% endmacro %}", "main": "{% extends 'base' %}{% from 'lib' import k as kk %}{% block c %}{{ kk(1) }}{% endblock %}"}, "[K1]"},
 	{map[string]string{"main": "{{ m(1) }}{% macro m(a) %}M{{ a }}{% endmacro %}"}, "M1"},
+	// a default that calls a sibling macro, reached by every route
+	{map[string]string{"lib": "{% macro border() %}solid{% endmacro %}{% macro box(b = border(), c = _self.border() ~ '!') %}[{{ b }}{{ c }}]{% endmacro %}{{ box() }}{{ _self.box('x') }}", "main": "{% import 'lib' as l %}{{ l.box() }}{% from 'lib' import box %}{{ box() }}{% from 'lib' import box as bx %}{{ bx('y') }}{% include 'lib' %}"}, "[solidsolid!][solidsolid!][ysolid!][solidsolid!][xsolid!]"},
 	{map[string]string{"lib": "{% macro k(a) %}K{{ a }}{% endmacro %}{% macro k2(a) %}Q{{ a }}{% endmacro %}", "main": "A {%- from 'lib' import k as kk, k2 -%} B{{ kk(1) }}{{ k2(2) }}"}, "ABK1Q2"},
 	{map[string]string{"lib": "{% macro k(a) %}K{{ a }}{% endmacro %}", "main": "A {%- from 'lib' import k -%} B{{ k(1) }} {%- import 'lib' as l -%} C{{ l.k(2) }}"}, "ABK1CK2"},
 	{map[string]string{"main": "{% if true %}{{ m(1) }}{% endif %}{% macro m(a) %}M{{ a }}{{ n(a) }}{% endmacro %}{% macro n(a) %}N{{ a }}{% endmacro %}"}, "M1N1"},
@@ -800,7 +802,7 @@ func checkC12Reach(c C12ReachCase) error {
 }
 
 func TestC12Reach(t *testing.T) {
-	r := NewRec(t, "C12", "exhaustive: 11 template sets in which a macro is called directly and through _self under the name of a built-in function, before its definition, and from the blocks of templates that extend another (local macro, import-as, from-import alias, two levels each with its own macro), and after from / import tags written with whitespace-control dashes; expected text written out; all cases non-trivial")
+	r := NewRec(t, "C12", "exhaustive: 12 template sets in which a macro is called directly and through _self under the name of a built-in function, before its definition, and from the blocks of templates that extend another (local macro, import-as, from-import alias, two levels each with its own macro), and after from / import tags written with whitespace-control dashes; expected text written out; all cases non-trivial")
 	defer r.Flush()
 	r.SetExhaustive()
 	for i := range c12ReachSets {
